@@ -4,7 +4,7 @@ from contracts import packet, message
 
 ID = "C03"
 TARGETS = ["paramiko.packet.Packetizer._build_packet", "paramiko.packet.Packetizer.send_message"]
-REPLAY = {"*": "c03.replay_build_packet"}
+REPLAY = {"_build_packet": "c03.replay_build_packet", "send_message": "c03.replay_send_message"}
 TRUSTED = ["os.urandom(n) returns n bytes", "struct.pack('>IB') big-endian digits (pack32 opaque + lemmas)"]
 
 
@@ -25,3 +25,14 @@ def lemmas(E):
         ok = isinstance(mi["size"], int) and isinstance(mi["digest_size"], int) and 0 < mi["size"] <= mi["digest_size"]
         out.append(("table::mac_size_le_digest_size[%s]" % name, [], z3.BoolVal(ok)))
     return out
+
+CLAIMED = True
+LEVEL_TEXT = ("Proof, for every payload length and every block size in [8,252] (and table obligations tying the real "
+              "_cipher_info/_mac_info entries to that range): _build_packet's length field, padding 4..255, block "
+              "alignment per framing mode and payload placement are postconditions discharged by SMT on the real AST; "
+              "send_message's bytes-on-wire length = packet + MAC/tag length is a postcondition over ghost wire state.")
+LEVEL_NOTE = ("Assumed: cipher update() is length preserving, AES-GCM encrypt adds a 16-byte tag, HMAC digest length = "
+              "digest_size (uninterpreted), os.urandom(n) has length n, struct.pack big-endian; compression off and "
+              "dump_packets covered; set_outbound_cipher/_activate_outbound establishing mac_size<=digest_size is a table "
+              "obligation, the call chain itself is verified under C04.")
+TECHNIQUE = "deductive: sidecar contracts + VC generation from the real AST, z3/cvc5"
